@@ -71,7 +71,8 @@ def access_paths(f, ch, lazy, nptdms):
     else:
         def chunks():
             parts, off = [], 0
-            for c in ch.data_chunks():
+            # the whole stream is drawn before any chunk is looked at: a chunk must stay what it was when it was delivered
+            for c in list(ch.data_chunks()):
                 if c.offset != off:
                     raise AssertionError("channel chunk offset %d, %d values delivered before" % (c.offset, off))
                 off += len(c)
@@ -87,7 +88,7 @@ def access_paths(f, ch, lazy, nptdms):
 def file_chunks(f):
     """{path: values} concatenated from TdmsFile.data_chunks(), checking offsets = running count"""
     acc, count = {}, {}
-    for chunk in f.data_chunks():
+    for chunk in list(f.data_chunks()):
         for g in chunk.groups():
             for c in g.channels():
                 p = c._channel.path
